@@ -136,6 +136,9 @@ def run(chk, replay=None):
                     dk = TwoBodyDecay.from_transition(tr, node)
                     where.setdefault(dk, (i, list(ampl.topo.attached(tr.topology, dk.parent.id))))
             records.append({"ev": "Start", "tid": tid, "trs": atrs})
+            if bi == 0:
+                ok = all(sel[(reaction.transitions[i], next(n for n in reaction.transitions[i].topology.nodes if TwoBodyDecay.from_transition(reaction.transitions[i], n) == dk))] is sel[dk] for dk, (i, _) in where.items())
+                records.append({"ev": "Shape", "tid": tid, "n": len(sel), "tuple_lookup_ok": int(ok), "all_non_dynamic": int(all(v is create_non_dynamic for v in sel.values()))})
             # Formulate is always enabled in DynSel: the driver interleaves it after assignments
             steps = []
             for st in beh[1:]:
